@@ -126,10 +126,12 @@ Proof. do 4 (split; [caseok|]). caseok. Qed.
    a variant named like its own discriminator (the discriminator overwrites the variant);
    two flattened oneofs with the same discriminator (the first decoder reads the other's value and leaves its child inlined) *)
 Example oneof_needs_keys_ok :
-  oneof_case_needs 4 os (q "Ev") [(s "eid", vstr "e"); (s "ctype", vstr "x")] /\
+  (* (since confirmed on the emitted code and tagged: defect class D4OneofMemberIsDiscriminator) *)
+  defects_C04 os (q "Ev") [(s "eid", vstr "e"); (s "ctype", vstr "x")] = [D4OneofMemberIsDiscriminator] /\
   oneof_case_needs 4 os (q "Dup") [(s "eid", vstr "e"); (s "pic", FM [(s "url", vstr "u")]); (s "leaf", FM [(s "a", vstr "x")])] /\
   (* a flattened variant whose type has a field named like the variant: `delete(raw, "self")` removes the child's field *)
-  oneof_case_needs 4 os (q "Fl") [(s "eid", vstr "e"); (s "self", FM [(s "self", vstr "x")])].
+  (* (since confirmed on the emitted code and tagged: defect class D4FlatVariantFieldIsVariant) *)
+  defects_C04 os (q "Fl") [(s "eid", vstr "e"); (s "self", FM [(s "self", vstr "x")])] = [D4FlatVariantFieldIsVariant].
 Proof. repeat split; vm_compute; reflexivity. Qed.
 
 (* the generators' own validation (annotations.ValidateOneofDiscriminator, checkMarshalJSONConflict) accepts these message types *)
@@ -162,7 +164,8 @@ Example oneof_needs_no_gap :
   (* flattened: an empty `optional bytes` is dropped by omitempty *)
   oneof_case_needs 7 os (q "Fl") [(s "eid", vstr "e"); (s "pic", FM [(s "ob", FS (VBytes []))])] /\
   (* flattened: json.Marshal fails on map[bool]string, the error is swallowed, the variant is dropped *)
-  oneof_case_needs 7 os (q "Fl") [(s "eid", vstr "e"); (s "pic", FM [(s "bm", FMap [(VBool true, vstr "x")])])] /\
+  (* (confirmed on the emitted code and tagged since: defect class D4FlatVariantBoolMap) *)
+  defects_C04 os (q "Fl") [(s "eid", vstr "e"); (s "pic", FM [(s "bm", FMap [(VBool true, vstr "x")])])] = [D4FlatVariantBoolMap] /\
   (* non-flattened: "NaN" inside a repeated double is rejected by json.Unmarshal *)
   oneof_case_needs 7 os (q "Ev") [(s "eid", vstr "e"); (s "note", FM [(s "fs", FL [FS (VFloat 9221120237041090561)])])] /\
   (* non-flattened: "altText" folds onto the int32 field alttext *)
